@@ -28,8 +28,10 @@ def run(tier: str, seed: int, reg: Any, jobs: int = 16) -> list:
         keys = []
         short = 0
         s = rnd.randrange(1, 1 << 100)
+        tries = 0
         while len(keys) < (6 if tier == "quick" else 40):
             s += 1
+            tries += 1
             priv = ec.derive_private_key(s, curve)
             nums = priv.public_key().public_numbers()
             cs = curve.key_size // 8
@@ -39,7 +41,7 @@ def run(tier: str, seed: int, reg: Any, jobs: int = 16) -> list:
                 keys.append(priv)
             elif not is_short and len(keys) - short < 3:
                 keys.append(priv)
-            if s > 10 ** 7:
+            if tries > 10 ** 5:
                 break
         for k in range(1, 5):
             sel = [keys[(i * 2 + k) % len(keys)] for i in range(k)]
